@@ -74,6 +74,11 @@ func ruleDiskMonotone(r *core.Reporter) {
 	a := cmp.Atom
 	// free < T  (atom LSS with X = free) — or T > free normalised the same way
 	okShape := a.V == nil && a.Op == token.LSS && ir.Strip(a.X) == ssa.Value(free) && !dependsOn(a.Y, free, map[ssa.Value]bool{})
+	// `free >= T` (T <= free) is the same comparison negated: accept on its true side
+	refuseWhen := true
+	if !okShape && a.V == nil && a.Op == token.LEQ && ir.Strip(a.Y) == ssa.Value(free) && !dependsOn(a.X, free, map[ssa.Value]bool{}) {
+		okShape, refuseWhen = true, false
+	}
 	// control dependence of T on free: T's defining phis must not be selected by a free-dependent branch (already excluded: only one dependent If)
 	if !okShape {
 		// free <= T-1 etc. are not accepted: the property says "below the threshold"
@@ -86,12 +91,12 @@ func ruleDiskMonotone(r *core.Reporter) {
 	for _, ret := range ir.Returns(fn) {
 		v := ir.RetVal(ret, 0)
 		if ir.IsNilConst(v) {
-			if !ir.OnlyVia(ir.Entry(fn), ret, cmp.If.Block(), cmp.EdgeWhen(false)) {
+			if !ir.OnlyVia(ir.Entry(fn), ret, cmp.If.Block(), cmp.EdgeWhen(!refuseWhen)) {
 				okRet = false
 				r.Violated("checkThreshold/accept-side", p.InstrPos(ret), "nil (accept) is returned on a path that did not establish free >= threshold")
 			}
 		} else {
-			if !ir.OnlyVia(ir.Entry(fn), ret, cmp.If.Block(), cmp.EdgeWhen(true)) {
+			if !ir.OnlyVia(ir.Entry(fn), ret, cmp.If.Block(), cmp.EdgeWhen(refuseWhen)) {
 				okRet = false
 				r.Violated("checkThreshold/refuse-side", p.InstrPos(ret), "an error (refuse) is returned on a path that did not establish free < threshold")
 			}
@@ -116,6 +121,9 @@ func ruleDiskFormula(r *core.Reporter) {
 	for _, ii := range ir.Ifs(fn) {
 		if ii.Atom.V == nil && ii.Atom.Op == token.LSS && ir.Strip(ii.Atom.X) == ssa.Value(fn.Params[1]) {
 			T = ir.Strip(ii.Atom.Y)
+		}
+		if ii.Atom.V == nil && ii.Atom.Op == token.LEQ && ir.Strip(ii.Atom.Y) == ssa.Value(fn.Params[1]) {
+			T = ir.Strip(ii.Atom.X) // free >= T
 		}
 	}
 	if T == nil {
@@ -190,6 +198,7 @@ func ruleDiskFormula(r *core.Reporter) {
 		r.Violated("checkThreshold/operator-value", fnPos(p, fn), "with --min-space-required given, the threshold is not exactly that many GiB (minSpaceRequired·2^30 under minSpaceRequired > 0)")
 	}
 	// (b) scaled default
+	clampInside := false
 	okB := false
 	if scaledLeaf != nil {
 		okB = isMul(scaledLeaf, func(v ssa.Value) bool {
@@ -198,7 +207,30 @@ func ruleDiskFormula(r *core.Reporter) {
 				return false
 			}
 			d, okd := ir.ConstFloat(q.Y)
-			return okd && d == 256*gib && ir.Strip(q.X) == ssa.Value(total)
+			if !okd || d != 256*gib {
+				return false
+			}
+			if ir.Strip(q.X) == ssa.Value(total) {
+				return true
+			}
+			// 50 GiB · min(total, 256 GiB) / 256 GiB: the clamp makes the ratio exactly 1 above the limit, so the
+			// same expression also yields the flat 50 GiB there
+			if mc, isC := ir.Strip(q.X).(*ssa.Call); isC && ir.CallName(mc.Common()) == "builtin.min" && len(mc.Call.Args) == 2 {
+				hasTotal, hasLimit := false, false
+				for _, a := range mc.Call.Args {
+					if ir.Strip(a) == ssa.Value(total) {
+						hasTotal = true
+					}
+					if c, okc := ir.ConstInt(a); okc && float64(c) == 256*gib {
+						hasLimit = true
+					}
+				}
+				if hasTotal && hasLimit {
+					clampInside = true
+					return true
+				}
+			}
+			return false
 		}, 50*gib)
 		if !okB {
 			// (50GiB * total) / 256GiB also fine
@@ -208,7 +240,7 @@ func ruleDiskFormula(r *core.Reporter) {
 				}
 			}
 		}
-		if okB && !viaMin {
+		if okB && !viaMin && !clampInside {
 			if in, isIn := scaledLeaf.(ssa.Instruction); isIn {
 				_, g := ir.GuardedBy(fn, ir.Entry(fn), in, true, func(a ir.Atom) bool {
 					if a.V != nil || a.Op != token.LEQ {
@@ -227,7 +259,10 @@ func ruleDiskFormula(r *core.Reporter) {
 		r.Violated("checkThreshold/scaled-default", fnPos(p, fn), "for volumes of at most 256 GiB the default threshold is not 50 GiB scaled linearly by total/256 GiB (or the 256 GiB boundary test changed)")
 	}
 	// (c) flat default
-	if f, ok := ir.ConstFloat(constLeaf); constLeaf != nil && ok && f == 50*gib {
+	if clampInside && okB {
+		want = 2
+		r.Held("checkThreshold/flat-default", 1, "T = 50 GiB for larger volumes (the size is clamped to 256 GiB inside the scaled formula)")
+	} else if f, ok := ir.ConstFloat(constLeaf); constLeaf != nil && ok && f == 50*gib {
 		r.Held("checkThreshold/flat-default", 1, "T = 50 GiB for larger volumes")
 	} else {
 		r.Violated("checkThreshold/flat-default", fnPos(p, fn), "the default threshold for volumes above 256 GiB is not 50 GiB")
